@@ -19,6 +19,8 @@ for d in sorted(os.listdir(f"{V}/seeded")):
     if not os.path.exists(mp): continue
     m = json.load(open(mp)); r = res.get(d, {})
     caught = ("`./check %s`" % r.get("check")) + (" **detected**" if r.get("detected") else " MISSED") if r else "not run"
+    if m.get("retired"):
+        caught = "retired: no longer breaks the property on the repaired tree (" + esc(m["retired"].get("short", "neutralised by a repair")) + ")"
     extra = r.get("also_caught_by")
     if extra: caught += "; also " + ", ".join(extra)
     seeded.append(f"| {d} | {m.get('property')} | {esc(m.get('summary',''))[:330]} — needs: {esc(m.get('needs',''))[:220]} | {caught} | {esc(', '.join(r.get('violation_keys', [])[:3]))} |")
